@@ -645,7 +645,7 @@ class Translator:
                 if len(node.args) >= 2:
                     m = self.method_name(node.args[1])
                     if m is not None:
-                        self.ctx["delays"].setdefault(self.ctrl, []).append((self.handler, m, ast.unparse(node.args[0])))
+                        self.ctx["delays"].setdefault(self.ctrl, []).append((self.handler, m, ast.unparse(node.args[0]), self.eval_duration(node.args[0])))
                         return f"(.delay {self.msg(m)})"
                 return self.mk_opaque(node, "do_delay target")
             if f.attr == "do_cancel":
@@ -674,6 +674,39 @@ class Translator:
         if mentions(node, {"__devices", "get_actor", "_proxy"}):
             return self.mk_opaque(node, "call")
         return S.skip
+
+    def eval_duration(self, node):
+        """duration of a do_delay in half seconds (int), or 'setting:<attr>' for `self.__x.total_seconds()`, or None"""
+        consts = self.ctx["class_consts"]
+
+        def ev(n):
+            if isinstance(n, ast.Constant) and isinstance(n.value, (int, float)):
+                return n.value
+            if isinstance(n, ast.Attribute) and isinstance(n.value, ast.Name):
+                owner = self.ctrl if n.value.id == "self" else n.value.id
+                v = consts.get((owner, n.attr))
+                if v is None:
+                    raise ValueError(ast.unparse(n))
+                return v
+            if isinstance(n, ast.BinOp):
+                a, b = ev(n.left), ev(n.right)
+                if isinstance(n.op, ast.Mult):
+                    return a * b
+                if isinstance(n.op, ast.Div):
+                    return a / b
+                if isinstance(n.op, ast.Add):
+                    return a + b
+                if isinstance(n.op, ast.Sub):
+                    return a - b
+            raise ValueError(ast.unparse(n))
+
+        if isinstance(node, ast.Call) and isinstance(node.func, ast.Attribute) and node.func.attr == "total_seconds" and isinstance(node.func.value, ast.Attribute):
+            return "setting:" + node.func.value.attr.lstrip("_")
+        try:
+            v = ev(node) * 2
+            return int(v) if float(v).is_integer() else None
+        except Exception:  # noqa: BLE001
+            return None
 
     def method_name(self, node):
         if isinstance(node, ast.Constant) and isinstance(node.value, str):
@@ -893,15 +926,36 @@ def guard_states(classes, slave, guard, seen=None):
     return out
 
 
+def config_values():
+    import configparser
+
+    from vlib.common import REPO
+
+    c = configparser.ConfigParser()
+    c.read(os.path.join(REPO, "config.ini"))
+    out = {}
+    for sec in ("heating", "wintering", "disinfection"):
+        for k, v in c[sec].items():
+            try:
+                f = float(v)
+                if (f * 2).is_integer():
+                    out[f"{sec}_{k}"] = int(f * 2)
+            except ValueError:
+                pass
+    return out
+
+
 def class_consts():
     import controller.filtration as f
     import controller.swim as s
     import controller.tank as t
     import controller.heating as h
     import controller.disinfection as d
+    import controller.arduino as ar
+    import controller.light as li
 
     out = {}
-    for cls in (f.Filtration, s.Swim, t.Tank, h.Heating, h.Heater, d.Disinfection, d.PWM):
+    for cls in (f.Filtration, s.Swim, t.Tank, h.Heating, h.Heater, d.Disinfection, d.PWM, ar.Arduino, li.Light):
         for k, v in vars(cls).items():
             if k.isupper() and isinstance(v, (int, float)):
                 out[(cls.__name__, k)] = v
@@ -1030,7 +1084,7 @@ def generate(repo=None):
         for (snd, h, rcv, m, to) in ctx["asks"]:
             if rcv == c and not m.startswith("set:"):
                 plain.add(m)
-        delayed = {m for (h, m, d) in ctx["delays"].get(c, [])}
+        delayed = {t[1] for t in ctx["delays"].get(c, [])}
         for cb in out[c]["cb_prog"]:
             pass
         for m in classes[c].decorated:
@@ -1059,7 +1113,7 @@ def generate(repo=None):
                 ded.append(t)
         ctx[k][:] = ded
     for c in list(ctx["delays"]):
-        ctx["delays"][c] = sorted(set(ctx["delays"][c]))
+        ctx["delays"][c] = sorted(set(ctx["delays"][c]), key=lambda t: (t[0], t[1], str(t[3])))
     return ctx, out
 
 
@@ -1107,6 +1161,10 @@ def lean_str(s):
 def emit(ctx, out, path):
     lines = ["-- GENERATED by translate/actors.py from the repository's working tree. Do not edit.", "import Poupool.Model.Actor", "namespace Poupool.Gen", "open Poupool", ""]
     lines.append(f"def names : List String := {L_list([lean_str(s) for s in ctx['names'].list])}")
+    lines.append("-- config.ini values, in half seconds\nnamespace Cfg")
+    for k, v in sorted(config_values().items()):
+        lines.append(f"abbrev {k} : Nat := {v}")
+    lines.append("end Cfg")
     lines.append("namespace N")
     for i, n in enumerate(ctx["names"].list):
         if re.fullmatch(r"[A-Za-z_][A-Za-z0-9_]*", n):
@@ -1172,6 +1230,16 @@ def emit(ctx, out, path):
                 f"  pollOwner := {po_s},\n"
                 f"  havoc := {hv_s if view == 'Safety' else '[]'} }}"
             )
+        dl = []
+        for (h, m, srcd, val) in ctx["delays"].get(c, []):
+            if isinstance(val, int):
+                dv = f"(.halfSeconds {val})"
+            elif isinstance(val, str):
+                dv = f"(.setting {lean_str(val[8:])})"
+            else:
+                dv = f"(.unknown {lean_str(srcd)})"
+            dl.append(f"({lean_str(h)}, {lean_str(m)}, {dv})")
+        lines.append(f"def {lc}Delays : List (String × String × Dur) := {L_list(dl)}")
         # named indices (a renamed/removed state, message or device makes the property files fail to build)
         def ident(x):
             return re.sub(r"[^A-Za-z0-9_]", "_", x)
